@@ -463,9 +463,12 @@ def makeDir (parent : Nat) (sfn : Bytes) (att : Nat) (now : Timestamp) : F Unit 
   let r ← F.attempt (writeNewDirectoryEntry parent sfn att newCluster now)
   match r with
   | .ok _ => pure ()
-  | other => do
+  | .err e => do
     -- `let _ = self.free_cluster_chain(..)`: the clean-up's own outcome is dropped
     let _ ← F.attempt (freeClusterChain newCluster)
+    F.fail e
+  | other =>
+    -- a panic unwinds (and a non-terminating walk never returns): no clean-up runs
     F.lift (other.bind fun _ => .ok ())
 
 end Fat
